@@ -234,6 +234,14 @@ impl Check for C11 {
 				(x, y) => fail!("dyn_equals_static", l, "config over() on {l} candles: static {:?}, dyn {:?}", x.map(|r| r.map(|v| v.len())), y.map(|r| r.map(|v| v.len()))),
 			}
 		}
+		// ---- accessors of the results (first 40 ticks: four guarded calls per slot and tick)
+		stats.fault("observer:result_accessors");
+		match guarded(|| (info.accessors)(cfg, &c.stream[..c.stream.len().min(40)])) {
+			Ok(Ok(Some(d))) => fail!("result_accessors", 0, "{d}"),
+			Ok(Ok(None)) | Ok(Err(_)) => {}
+			// the accessors are called under their own guard; a panic here comes from init()/next() and belongs to C10
+			Err(_) => stats.probe("accessor_replica_next_panicked_skipped (belongs to C10)"),
+		}
 		// ---- shape monitor on run A + static vs dyn replicas
 		if let Some(f) = meng::factory(c) {
 			if let Ok(a) = meng::run_a(&f, &c.stream) {
